@@ -1582,6 +1582,18 @@ def _const_truth(v):
     if isinstance(v, tuple) and v and v[0] == "un" and v[1] == "!":
         inner = _const_truth(v[2])
         return None if inner is None else (not inner)
+    if isinstance(v, tuple) and v and v[0] == "bin" and v[1] in ("&&", "||"):
+        l, r = _const_truth(v[2]), _const_truth(v[3])
+        if v[1] == "&&":
+            if l is False or r is False:
+                return False
+            if l is True and r is True:
+                return True
+        else:
+            if l is True or r is True:
+                return True
+            if l is False and r is False:
+                return False
     return None
 
 
